@@ -370,15 +370,20 @@ func (b *gwsGRPCWebHandler) OnMessage(socket *gws.Conn, message *gws.Message) {
 		event.err = status.Error(codes.InvalidArgument, "expected flow control byte")
 	}
 
-	// handle length-prefixed message, but length doesn't actually matter for websockets
-	if len(data) > 6 {
+	// handle length-prefixed message, but length doesn't actually matter for websockets.
+	// An empty message is exactly 6 bytes long: the flow control byte and the 5-byte header.
+	if len(data) >= 6 {
 		event.data = data[6:]
+	} else if event.err == nil && len(data) != 1 {
+		event.err = status.Error(codes.InvalidArgument, "expected length-prefixed message header")
+	}
+
+	// deliver messages as well as framing errors, which must fail the stream instead of being silently dropped
+	if len(data) >= 6 || event.err != nil {
 		select {
 		case stream.events <- event: // events closed only by OnMessage, so no panic will occur here
 		case <-stream.done:
 		}
-	} else if event.err == nil && len(data) != 1 {
-		event.err = status.Error(codes.InvalidArgument, "expected length-prefixed message header")
 	}
 
 	if stream.closed {
